@@ -687,3 +687,116 @@ Example C05_ex_multiply_atomic_negative :
   rw_positions (sem e 6 (NConcat 0 [NLoop false 0 0 1 (NCharLoop COne LAtomic 0 97 1 INF); NMulti 0 [97; 98]]) rw_s0) = [2] /\
   rw_positions (sem e 6 (NConcat 0 [NCharLoop COne LAtomic 0 97 0 INF; NMulti 0 [97; 98]]) rw_s0) = [].
 Proof. vm_compute. split; reflexivity. Qed.
+
+(* ============================================================================================== *)
+(* PART 2 — the per-pattern link: the executable model of the optional rewrites is sound            *)
+(* ============================================================================================== *)
+From Verif Require Import Model.CharClass Model.Parser Model.FinalOpt Proofs.SpecBoundsProofs Proofs.CharClassRanges Proofs.CharClassOverlap
+  Proofs.FinalOptDen Proofs.FinalOptK Proofs.FinalOptLink Proofs.FinalOptLeaf Proofs.FinalOptWalk Proofs.FinalOptAtomic Proofs.FinalOptEnd Proofs.FinalOptMain.
+(* Model/FinalOpt.fo_final_optimize g strict lite cl t  is the tree syntax.Parse returns under gate mask g, computed
+   from the tree t it returns with every optional rewrite off (mask 31); leg c05-opt checks that per pattern and
+   mask against the real parser (exact trees), through the exact reference Model/FinalOptParse.v.
+   Semantics of a raw parser node: Proofs/FinalOptLink.tr (sets become set ids through a numbering sid; the
+   environment must read them as class membership: Proofs/FinalOptLeaf.env_ok, with three facts about the word
+   oracles).  Shape side condition: Model/FinalOpt.fo_wf (boolean, checked per tree by the leg).
+
+   PROVED here: for every tree, environment and mask whose two alternation families are off (bits 8 and 16 set:
+   families 1 automatic atomic loops, 2 removal of ending backtracking, 4 bump-along marker may be on in any
+   combination), the model run with  strict = 15, lite = true  keeps the first result of the root from every state
+   inside the text, hence the search finds the same match (both directions).
+   The side conditions, all evaluated per tree by leg c05-opt (histogram "side-condition ..."):
+     strict bit 1  (no \B stepped over before the END OF THE EXPRESSION)  is NECESSARY: known finding
+                   c05-nonboundary-end, C05_R4_nonboundary_at_end_refuted above and C05_final_optimize_nb_refuted below;
+     strict bits 2, 4, 8 and lite mark what is NOT proved yet (hence `_partial`):
+       2  canBeMadeAtomic walking up through / processNode descending into a BALANCING capture,
+       4  canBeMadeAtomic walking up out of an atomic group it descended into itself (a successor of the loop),
+       8  the descent FindLastExpressionInLoopForAutoAtomic (loop bodies whose last child is disjoint from the first),
+       lite  the mandatory reducers re-run by eliminateEndingBacktracking's Atomic wrapper must be the identity there;
+     and the two alternation families (atomic-alternation trimming / reordering, prefix factoring) are outside:
+     their RULES are R5 / R6 above; the model of their code is tied to the parser by the leg only. *)
+
+(* canBeMadeAtomic (tree.go:893-1071) says true only if what follows the loop, whatever continuation the parents
+   allow, is dead wherever the loop may stop early, or (no \B stepped over) never fails *)
+Theorem C05_can_be_made_atomic_sound :
+  forall cat_in isw isew sid e sets, env_ok cat_in isw isew sid e sets ->
+  forall strict, Z.testbit strict 0 = true -> Z.testbit strict 1 = true -> Z.testbit strict 2 = true ->
+  forall f n sub c iter al seen,
+    fo_cbma cat_in isw isew f strict n sub c iter al seen = Ok true ->
+    node_ok sets n -> node_ok sets sub -> ctx_ok sets c ->
+    cbma_spec cat_in sid e n sub c iter seen.
+Proof. exact cbma_sound. Qed.
+Print Assumptions C05_can_be_made_atomic_sound.
+
+(* findAndMakeLoopsAtomic + processNode: the same first result under every continuation the parents allow *)
+Theorem C05_auto_atomic_loops_sound_partial :
+  forall cat_in isw isew sid e sets, env_ok cat_in isw isew sid e sets ->
+  forall strict, Z.testbit strict 0 = true -> Z.testbit strict 1 = true -> Z.testbit strict 2 = true -> Z.testbit strict 3 = true ->
+  forall f x c x', fo_fa cat_in isw isew f strict x c = Ok x' -> node_ok sets x -> ctx_ok sets c ->
+    node_ok sets x' /\ forall K, CK sid e c K -> HK e K (tr sid x) (tr sid x').
+Proof. exact fa_sound. Qed.
+Print Assumptions C05_auto_atomic_loops_sound_partial.
+
+(* eliminateEndingBacktracking keeps the first result, the gated reduce (lite) every result *)
+Theorem C05_eliminate_ending_model_sound_partial :
+  forall cat_in isw isew sid e sets g strict, fo_gate g 8 = true -> fo_gate g 16 = true -> Z.testbit strict 3 = true ->
+  forall f,
+    (forall par node node', fo_ee cat_in isw isew f g strict true par node = Ok node' -> node_ok sets node ->
+        node_ok sets node' /\ rw_hrefines e (tr sid node) (tr sid node')) /\
+    (forall mode ptype x x', fo_reduce cat_in isw isew f g strict true mode ptype x = Ok x' -> node_ok sets x ->
+        node_ok sets x' /\ rw_refines e (tr sid x) (tr sid x')).
+Proof.
+  intros cat_in isw isew sid e sets g strict H8 H16 H3 f.
+  destruct (ee_red_sound cat_in isw isew sid e sets g strict H8 H16 H3 f) as [HE HR]. split.
+  - intros par node node' H Hok. destruct (HE par node node' H Hok) as (H1 & H2 & _). split; assumption.
+  - intros mode ptype x x' H Hok. exact (HR mode ptype x x' H Hok).
+Qed.
+Print Assumptions C05_eliminate_ending_model_sound_partial.
+
+(* the bump-along marker: every result kept *)
+Theorem C05_bump_along_model_sound :
+  forall sid e sets f g node aba committing node' mk,
+    fo_bump f g node aba committing = Ok (node', mk) -> node_ok sets node ->
+    node_ok sets node' /\ rw_refines e (tr sid node) (tr sid node').
+Proof.
+  intros sid e sets f g node aba committing node' mk H Hok.
+  destruct (bump_sound sid e sets f g node aba committing node' mk H Hok) as (H1 & H2 & _). split; assumption.
+Qed.
+Print Assumptions C05_bump_along_model_sound.
+
+(* the whole post-pass: same first result of the root from every state inside the text *)
+Theorem C05_final_optimize_sound_partial :
+  forall cat_in isw isew sid e sets, env_ok cat_in isw isew sid e sets ->
+  forall g, fo_gate g 8 = true -> fo_gate g 16 = true ->
+  forall fuel cl root root', fo_wf root = true -> sets_in sets root ->
+    fo_final_optimize cat_in isw isew fuel g 0 false cl root = Ok root' ->        (* the code as it is ... *)
+    fo_final_optimize cat_in isw isew fuel g 15 true cl root = Ok root' ->        (* ... does not rely on a step outside the proof *)
+    fo_wf root' = true /\
+    forall s, st_ok e s -> hd_list (den e (tr sid root) s) = hd_list (den e (tr sid root') s).
+Proof.
+  intros cat_in isw isew sid e sets Henv g H8 H16 fuel cl root root' Hwf Hs _ H.
+  destruct (final_optimize_sound cat_in isw isew sid e sets Henv g 15 H8 H16 eq_refl eq_refl eq_refl eq_refl fuel cl root root' H (conj Hwf Hs))
+    as [[Hwf' _] Hh].
+  split; [exact Hwf' | exact Hh].
+Qed.
+Print Assumptions C05_final_optimize_sound_partial.
+
+(* ... hence the search (Spec.find: every start position in scan order) finds the same match, both ways *)
+Theorem C05_final_optimize_find_partial :
+  forall cat_in isw isew sid e sets, env_ok cat_in isw isew sid e sets ->
+  forall g, fo_gate g 8 = true -> fo_gate g 16 = true ->
+  forall fuel cl root root', fo_wf root = true -> sets_in sets root ->
+    fo_final_optimize cat_in isw isew fuel g 0 false cl root = Ok root' ->
+    fo_final_optimize cat_in isw isew fuel g 15 true cl root = Ok root' ->
+    forall (rtl : bool) start prevlen r, 0 <= start <= tlen e ->
+      (forall f, find e f (tr sid root) rtl start prevlen = Ok r -> exists f', find e f' (tr sid root') rtl start prevlen = Ok r) /\
+      (forall f, find e f (tr sid root') rtl start prevlen = Ok r -> exists f', find e f' (tr sid root) rtl start prevlen = Ok r).
+Proof.
+  intros cat_in isw isew sid e sets Henv g H8 H16 fuel cl root root' Hwf Hs H0 H rtl start prevlen r Hst.
+  destruct (C05_final_optimize_sound_partial cat_in isw isew sid e sets Henv g H8 H16 fuel cl root root' Hwf Hs H0 H) as [_ Hh].
+  split; intros f Hf.
+  - apply (find_same_head e (tr sid root) (tr sid root') rtl) with (f := f); [|exact Hst|exact Hf].
+    intros p Hp. apply Hh. apply sb_init_ok. exact Hp.
+  - apply (find_same_head e (tr sid root') (tr sid root) rtl) with (f := f); [|exact Hst|exact Hf].
+    intros p Hp. symmetry. apply Hh. apply sb_init_ok. exact Hp.
+Qed.
+Print Assumptions C05_final_optimize_find_partial.
